@@ -97,3 +97,39 @@ H("C15", "race", "c15_race_id_table", bounds="all 8x16x2 triples vs the document
 H("C15", "race", "c15_try_from_tables", bounds="all 256 byte values for Race/Tribe/Gender::try_from",
   encodes=["race::Race::try_from", "race::Tribe::try_from", "race::Gender::try_from"])
 H("C15", "race", "c15_pipeline_witness", expect="witness-fail", bounds="assert(false) twin: must be reported as failing")
+
+# ================================================================================================
+# C11 — Blowfish
+# ================================================================================================
+_BF = ["blowfish::Blowfish::f", "blowfish::Blowfish::encrypt_pair", "blowfish::Blowfish::decrypt_pair"]
+H("C11", "blowfish", "c11_f_is_spec", bounds="all 4x256 S-box words (symbolic, 4 KiB), all 2^32 x",
+  encodes=["blowfish::Blowfish::f"])
+H("C11", "blowfish", "c11_encrypt_pair_is_reference", unwind=66,
+  bounds="all P arrays, all blocks (l, r), every F (abstract function, 32 calls)",
+  encodes=["blowfish::Blowfish::encrypt_pair"], stubs=["Blowfish::f -> abstract function (Ackermann constraints)"],
+  replay="playback")
+H("C11", "blowfish", "c11_decrypt_inverts_encrypt", unwind=66,
+  bounds="all P arrays, all blocks, every F (abstract function)",
+  encodes=_BF[1:], stubs=["Blowfish::f -> abstract function (Ackermann constraints)"])
+H("C11", "blowfish", "c11_encrypt_inverts_decrypt", unwind=66,
+  bounds="all P arrays, all blocks, every F (abstract function)",
+  encodes=_BF[1:], stubs=["Blowfish::f -> abstract function (Ackermann constraints)"])
+_FR = dict(encodes=["blowfish::Blowfish::encrypt", "blowfish::Blowfish::decrypt", "blowfish::Blowfish::pad_buffer"],
+           stubs=["Blowfish::encrypt_pair -> arbitrary injective function (recorded)",
+                  "Blowfish::decrypt_pair -> its inverse on recorded outputs, arbitrary elsewhere (justified by c11_decrypt_inverts_encrypt)"],
+           replay="structural", unwind=34)
+for n, t in ((0, "quick"), (1, "quick"), (7, "thorough"), (8, "quick"), (9, "quick"), (13, "thorough"),
+             (16, "thorough"), (17, "quick"), (24, "thorough")):
+    H("C11", "blowfish", "c11_framing_len%d" % n, tier=t, timeout=300,
+      bounds="message length %d (concrete), all message bytes symbolic" % n, **_FR)
+H("C11", "blowfish", "c11_tables_are_pi", bounds="all 18 + 1024 table words vs pi digits generated at check time",
+  encodes=["blowfish::constants::BLOWFISH_P", "blowfish::constants::BLOWFISH_S"])
+_KS = dict(encodes=["blowfish::Blowfish::new"], replay="structural", unwind=130,
+           stubs=["Blowfish::encrypt_pair -> recorder returning fresh nondeterministic pairs (521 calls)"])
+H("C11", "blowfish", "c11_key_schedule_8", tier="quick", timeout=900, bounds="all 2^64 8-byte keys", **_KS)
+H("C11", "blowfish", "c11_key_schedule_16", tier="thorough", timeout=1800, bounds="all 16-byte keys", **_KS)
+H("C11", "blowfish", "c11_key_schedule_56", tier="thorough", timeout=1800, bounds="all 56-byte keys", **_KS)
+H("C11", "blowfish", "c11_published_vector_zero_key", tier="thorough", timeout=1800, unwind=130,
+  bounds="one concrete published vector (key 0^8, block 0^8) through new+encrypt; decided by constant propagation",
+  encodes=["blowfish::Blowfish::new", "blowfish::Blowfish::encrypt"] + _BF)
+H("C11", "blowfish", "c11_pipeline_witness", expect="witness-fail", bounds="assert(false) twin: must be reported as failing")
